@@ -553,6 +553,15 @@ class C13(Prop):
             json_cases.append(("c13.ces", jrender(obj((b"Error", t), (b"error", obj((b"code", b"internal"))))), 0))
             json_cases.append(("c13.cerr", jrender(obj((b"code", b"aborted"), (b"details", [plain_detail()]), (b"DETAILS", t))), 0))
             json_cases.append(("c13.cerr", jrender(obj((b"code", b"aborted"), (b"details", [obj((b"type", b"a.B"), (b"value", b"QQ"), (b"debug", t))]))), 0))
+        # catalogue: values that pass the typed Unmarshal (null) but not the per-key checks, metadata malformations
+        for tv in (None, b"", b"a..b", b".a", b"1a", b"a.b-c", b"a/b.C", b"a.B"):
+            for vv in (None, b"QQ", b"QQ==", b"Q", b"!!!!", b"QUJD\n"):
+                json_cases.append(("c13.cerr", jrender(obj((b"code", b"aborted"), (b"details", [obj((b"type", tv), (b"value", vv))]))), 0))
+        for md in (None, [], b"x", obj((b"bad name", [b"v"])), obj((b"", [b"v"])), obj((b"k", b"v")), obj((b"k", None)), obj((b"k", [("n", b"1")])),
+                   obj((b"k", [None])), obj((b"k", [b"a\x00"])), obj((b"k", [b"a\x7f", b"ok", b"tab\t"])), obj((b"k", [b"v"]), (b"K", [b"w"])),
+                   obj((b"k", [b"v"]), (b"k", [b"w"])), obj((b"caf\xc3\xa9", [b"caf\xc3\xa9"]))):
+            json_cases.append(("c13.ces", jrender(obj((b"metadata", md))), 0))
+            json_cases.append(("c13.ces", jrender(obj((b"error", obj((b"code", b"unknown"))), (b"metadata", md))), 0))
         literal = [b"", b" ", b"{", b"}", b"{}", b"{} x", b"{}{}", b"[", b"nul", b"null ", b" null", b"{\"code\":\"unknown\"}\n", b"{\"code\":\"unknown\",}",
                    b"{\"code\":unknown}", b"{'code':'unknown'}", b"{\"code\":\"unk\\u006eown\"}", b"{\"co\\u0064e\":\"unknown\"}", b"{\"code\":\"unknown\"}}",
                    b"\xef\xbb\xbf{}", b"{\"code\":\"\xff\"}", b"{\"\xff\":1,\"\xfe\":2}", b"{\"a\":1e999,\"a\":1}", b"{\"a\":1,\"a\":1e999}",
